@@ -101,6 +101,7 @@ def framing(chk, prog):
     if len(ls) == 1:
         lp = ls[0]
         w = lp["where"]
+        common.pre_loop_returns(chk, "R-ERR", DM, prog, fn, lp["head"], opaque=[DC, DH], what="the message loop")
         rdr = P(fn.local_name(1) or "reader")
         h = call(DH, rdr)
         names = {fn.local_name(l): l for l in lp["tracked"]}
